@@ -39,19 +39,34 @@ func runLock(cfg *config) {
 	var armed, parked, writes int32
 	// inStmt: between the first lock acquisition of the statement being executed and its return;
 	// inside: page / header writes seen meanwhile (must be none, whatever the statement does with the lock)
-	var watch, inStmt, inside int32
+	// A write seen while the statement holds its lock counts at once.  A write seen after the
+	// statement released its lock counts only if the same statement takes the lock again afterwards
+	// (the statement gave the flusher a gap in its middle); after the last release the flusher is free.
+	var watch, inStmt, ended, gap, inside int32
 	storage.VerifSetHook(func(ev string, arg uint64) {
 		switch {
 		case ev == "txn.begin":
 			if atomic.LoadInt32(&watch) == 1 {
+				if atomic.LoadInt32(&ended) == 1 {
+					atomic.AddInt32(&inside, atomic.LoadInt32(&gap))
+				}
+				atomic.StoreInt32(&gap, 0)
+				atomic.StoreInt32(&ended, 0)
 				atomic.StoreInt32(&inStmt, 1)
 			}
 			return
 		case ev == "txn.end":
+			if atomic.LoadInt32(&watch) == 1 && atomic.LoadInt32(&inStmt) == 1 {
+				atomic.StoreInt32(&ended, 1)
+			}
 			return
 		}
 		if (ev == "page.write" || ev == "hdr.write") && atomic.LoadInt32(&inStmt) == 1 {
-			atomic.AddInt32(&inside, 1)
+			if atomic.LoadInt32(&ended) == 1 {
+				atomic.AddInt32(&gap, 1)
+			} else {
+				atomic.AddInt32(&inside, 1)
+			}
 		}
 		switch {
 		case strings.HasPrefix(ev, "wal."):
@@ -108,6 +123,8 @@ func runLock(cfg *config) {
 		})
 		atomic.StoreInt32(&watch, 0)
 		atomic.StoreInt32(&inStmt, 0)
+		atomic.StoreInt32(&ended, 0)
+		atomic.StoreInt32(&gap, 0)
 		cfg.tr.Out("%s writes-inside-statement=%d", res, atomic.LoadInt32(&inside))
 		cfg.st.Inc("bulk")
 	}
